@@ -10,7 +10,8 @@ import (
 	"verif/internal/sym"
 )
 
-func mathFloat64bits(f float64) uint64 { return math.Float64bits(f) }
+func mathFloat64bits(f float64) uint64     { return math.Float64bits(f) }
+func mathFloat64frombits(b uint64) float64 { return math.Float64frombits(b) }
 
 // absBuf: content of a bytes.Buffer (always modelled; never executed from SSA).
 type absBuf struct {
